@@ -19,7 +19,7 @@ MANIFEST = {
              'equals the nested-loop specification S_hloc over the flat tuples: positions, order under list selectors, single-position flag); '
              'C05_from_labels_exact, C05_append_exact, C05_extend_exact (builder / GO append along the last edge / extend produce a well-formed '
              'tree denoting exactly the old tuples followed by the new ones; for EVERY key an append is either admitted and exact or rejected with the state unchanged -- fixes 5320f59/cc33791/248eb88 are modelled, no guard left on slices, appends or key length); '
-             'C05_go_history, C05_history_blocks (invariant over every admitted history of append/extend/read incl. cache materialisation in between); '
+             'C05_derive_no_stale_table (an index derived from the grown object at any point inherits the cache only when fresh: same tuples, same columns); C05_go_history, C05_history_blocks (invariant over every history of append/extend/read incl. cache materialisation in between); '
              'C05_spec_selects_matching / C05_hloc_selects_matching (for selectors : / label / list the specification, hence the resolution, returns exactly the positions whose tuple matches every level selector); '
              'C05_source_shape (constants the model hinges on, re-extracted from the source AST on every run). '
              'Correspondence: the real IndexLevel tree is read out of every IndexHierarchy built through all public construction routes and GO '
@@ -39,8 +39,8 @@ MODEL_FILES = ['SF/Hier.v', 'SF/HierVal.v']
 IMPORTS = 'Require Import SF.Prelude SF.PySlice SF.Dtype SF.Value SF.Hier SF.HierVal.'
 RULE = ('trees of depth 2..4 with ragged fan-out 1..5, labels drawn per depth from small pools (so inner labels repeat under different '
         'parents) in random order, per-depth kinds str/int/date; every construction route; selectors per depth from '
-        '{all, label, list, label slice} plus Boolean masks at the innermost depth / as whole key; GO histories of append/extend/read. '
-        'Exhaustive stratum (thorough tier, api:hloc:small): all 90 depth-2 trees with root labels a | a,b and leaf sequences of <= 2 distinct labels of {1,2,3} x every selector pair of the menu {:, label, ordered list of <= 2 labels, label slice with optional ends} (40500 keys) + one random innermost mask per tree; quick tier samples 900 of them. '
+        '{all, label, list, label slice} plus Boolean masks at the innermost depth / as whole key; GO histories of append/extend/read: EXHAUSTIVE over {materialise, append-leaf, append-branch, extend}^(<=2 quick, <=3 thorough) from two start indices with the full probe battery (derive a new index through 7 public routes and observe all its views; HLoc of every selector kind; Series/Frame .loc[HLoc]) run immediately after every growth step, plus random longer histories with random probes. '
+        'Exhaustive stratum (thorough tier, api:hloc:small): all 90 depth-2 trees with root labels a | a,b and leaf sequences of <= 2 distinct labels of {1,2,3} x every selector pair of the menu {:, label, ordered list of <= 2 labels, label slice with optional ends} (40500 keys) + one random innermost mask per tree; quick tier samples 700 of them. '
         'non-trivial = the selection is non-empty and the tree has more than one leaf node; distinct = distinct (rows, route/key).')
 ASSUMPTIONS = [
     'label lookup in an Index (FrozenAutoMap / dict) = first position under structural equality of canonical labels; levels are homogeneously typed so Python == and structural equality coincide',
@@ -174,6 +174,27 @@ def generate(repo):
         return any(isinstance(n, ast.Assign) and len(n.targets) == 1 and isinstance(n.targets[0], ast.Attribute)
                    and n.targets[0].attr == '_recache' and is_true(n.value) for n in ast.walk(f))
 
+    # IndexHierarchy.__init__: cached blocks of a source IndexHierarchy are handed over only when fresh
+    init = find_func(find_class(ih, 'IndexHierarchy'), '__init__')
+    fresh_only = False
+    any_copy = 0
+    for n in ast.walk(init):
+        if isinstance(n, ast.If):
+            copies = any(isinstance(a, ast.Assign) and ast.dump(a.value) == d('levels._blocks.copy()') for a in n.body)
+            if copies:
+                any_copy += 1
+                fresh_only = ast.dump(n.test) == d('not levels._recache')
+    if any_copy != 1:
+        raise ValueError('expected exactly one hand-over of levels._blocks in IndexHierarchy.__init__')
+    # Index._loc_to_iloc: the label map / positions are refreshed for EVERY key before LocMap.loc_to_iloc
+    ixl = find_func(find_class(ix, 'Index'), '_loc_to_iloc')
+    body = ixl.body
+    refresh_all = False
+    for i, st_ in enumerate(body):
+        if isinstance(st_, ast.Return) and isinstance(st_.value, ast.Call) and ast.dump(st_.value.func) == d('LocMap.loc_to_iloc'):
+            prev = body[i - 1]
+            refresh_all = (isinstance(prev, ast.If) and ast.dump(prev.test) == d('self._recache') and len(prev.body) == 1
+                           and isinstance(prev.body[0], ast.Expr) and ast.dump(prev.body[0].value) == d('self._update_array_cache()'))
     b = lambda x: 'true' if x else 'false'
     text = '\n'.join([
         '(* GENERATED on every run by tools/sfv/props/c05.py:generate from the AST of /repo -- do not edit. *)',
@@ -190,6 +211,8 @@ def generate(repo):
         f'Definition gen_go_append_rejects_non_last_label : bool := {b(rejects)}.',
         f'Definition gen_locmap_open_slice_ends_bounded : bool := {b(bounded)}.',
         f'Definition gen_contains_requires_key_end : bool := {b(ends and not plain_true)}.',
+        f'Definition gen_ih_init_hands_over_blocks_only_if_fresh : bool := {b(fresh_only)}.',
+        f'Definition gen_index_loc_refreshes_cache_for_every_key : bool := {b(refresh_all)}.',
         f'Definition gen_go_append_sets_recache : bool := {b(sets_recache("append"))}.',
         f'Definition gen_go_extend_sets_recache : bool := {b(sets_recache("extend"))}.',
         '',
@@ -633,14 +656,22 @@ def open_inner_slice(key, depth):
     return s[0] == 'slice' and ((s[1] is None) != (s[2] is None))
 
 
-def hloc_case(ctx, ih, tree, rows, key, route, stratum='api:hloc:loc_to_iloc', wrap=None):
+def json_key(x):
+    import json
+    return json.dumps(x, sort_keys=True, default=str) if x else ''
+
+
+def hloc_observe(ih, key, n, wrap=None):
+    def run():
+        return canon_iloc(ih.loc_to_iloc(hloc_of(key, wrap, ih)), n)
+    return res_lit(run, lambda v: hres_lit(*v))
+
+
+def hloc_case(ctx, ih, tree, rows, key, route, stratum='api:hloc:loc_to_iloc', wrap=None, obs=None, extra=None):
     depth = len(rows[0])
     n = len(rows)
     tl, rl, kl = tree_lit(tree), rows_lit(rows), key_lit(key)
-
-    def run():
-        return canon_iloc(ih.loc_to_iloc(hloc_of(key, wrap, ih)), n)
-    txt, out = res_lit(run, lambda v: hres_lit(*v))
+    txt, out = obs if obs is not None else hloc_observe(ih, key, n, wrap)
     kinds = '+'.join(s[0] for s in key)
     ctx.count(f'hloc:{kinds}' if len(kinds) < 40 else 'hloc:long', 'hloc:err' if isinstance(out, Exception) else 'hloc:ok')
     tags = {'route': route, 'op': 'hloc'}
@@ -654,13 +685,13 @@ def hloc_case(ctx, ih, tree, rows, key, route, stratum='api:hloc:loc_to_iloc', w
     return Case(stratum,
                 {'route': route, 'rows': [[jl(x) for x in r] for r in rows],
                  'call': 'ih.loc_to_iloc(HLoc[key])' + (f' with list/mask selectors passed as {wrap}' if wrap else ''),
-                 'key': [sel_json(s) for s in key], 'observed': txt},
+                 'key': [sel_json(s) for s in key], 'observed': txt, **(extra or {})},
                 m=None if outer_mask else f'check_hloc_M {tl} {kl} {txt}',
                 s=None if outer_mask else f'check_hloc_S {rl} {kl} {txt}',
-                tags=tags, nontrivial=nontrivial, key=f'hloc|{wrap}|{rl}|{kl}')
+                tags=tags, nontrivial=nontrivial, key=f'hloc|{wrap}|{rl}|{kl}|{json_key(extra)}')
 
 
-def extract_cases(ctx, ih, rows, key, route):
+def extract_cases(ctx, ih, rows, key, route, only=None, extra=None):
     '''ih.loc / Series / Frame selection with the same HLoc: labels and payload of the selected rows.'''
     import static_frame as sf
     n = len(rows)
@@ -724,6 +755,8 @@ def extract_cases(ctx, ih, rows, key, route):
 
     for name, fn in (('ih.loc', via_index), ('series.getitem', via_series), ('series.loc', via_series_loc),
                      ('frame.loc', via_frame), ('frame.getitem_columns', via_frame_columns), ('frame.loc_col', via_frame_col_sel)):
+        if only is not None and name not in only:
+            continue
         txt, out = res_lit(fn, pr)
         ctx.count(f'extract:{name}')
         # a single selection carries no labels in the Series/Frame forms: compare the payload only
@@ -734,9 +767,9 @@ def extract_cases(ctx, ih, rows, key, route):
             s_term = f'check_extract_S {rl} {pl} {kl} {txt}'
         yield Case(f'api:extract:{name}',
                    {'route': route, 'rows': [[jl(x) for x in r] for r in rows], 'call': f'{name}[HLoc[key]] (payload 100+position)',
-                    'key': [sel_json(s) for s in key], 'observed': txt},
+                    'key': [sel_json(s) for s in key], 'observed': txt, **(extra or {})},
                    s=s_term, tags=dict(tags, via=name),
-                   nontrivial=not isinstance(out, Exception), key=f'ext|{name}|{rl}|{kl}')
+                   nontrivial=not isinstance(out, Exception), key=f'ext|{name}|{rl}|{kl}|{json_key(extra)}')
 
 
 def random_key(rng, rows, kinds, allow_short=True):
@@ -840,7 +873,7 @@ def hloc_cases(ctx):
     trees = list(small_trees_depth2())
     pool = [1, 2, 3]
     menu0 = selector_menu(['a', 'b'], 0, inner=False)
-    budget = ctx.n(900, 45000)
+    budget = ctx.n(700, 45000)
     combos = []
     for shape in trees:
         rows = shape_rows(shape)
@@ -935,6 +968,149 @@ def snapshot(ih):
     return rows
 
 
+DERIVE_KINDS = ['IH(g)', 'IHGO(g)', 'rename', 'series.index', 'frame.index', 'framego.columns.to_frame', 'copy']
+
+
+def derive(g, kind, n):
+    '''A new index derived from the (possibly just grown) IndexHierarchyGO through the public interface.'''
+    import static_frame as sf
+    if kind == 'IH(g)':
+        return sf.IndexHierarchy(g)
+    if kind == 'IHGO(g)':
+        return sf.IndexHierarchyGO(g)
+    if kind == 'rename':
+        return g.rename('r')
+    if kind == 'series.index':
+        return sf.Series(range(n), index=g).index
+    if kind == 'frame.index':
+        return sf.Frame.from_records([[i] for i in range(n)], index=g, columns=('v',)).index
+    if kind == 'framego.columns.to_frame':
+        return sf.FrameGO.from_records([list(range(n))], columns=g).to_frame().columns
+    if kind == 'copy':
+        return g.copy()
+    raise ValueError(kind)
+
+
+def probe_battery(want, depth, order=0):
+    '''Everything that is observed IMMEDIATELY after a growth step, before any other read of the grown object:
+    HLoc selections of every selector kind (incl. `:` / omitted / open label slice at the innermost depth),
+    Series/Frame .loc[HLoc] on containers indexed by the grown object, and new indices derived from it.'''
+    r = want[-1]
+    n = len(want)
+    pre = [('one', x) for x in r[:-1]]
+    hl = [pre + [('all',)], pre, [('one', r[0])], pre + [('slice', r[-1], None)], pre + [('slice', None, r[-1])],
+          [('all',)] * depth, pre + [('one', r[-1])], pre + [('list', [r[-1]])], [('all',)] * (depth - 1) + [('one', r[-1])]]
+    seen, hl2 = set(), []
+    for k in hl:
+        if key_lit(k) not in seen:
+            seen.add(key_lit(k))
+            hl2.append(k)
+    masks = [[('all',)] * (depth - 1) + [('mask', [True] * n)], pre + [('mask', [i == n - 1 for i in range(n)])]]
+    ph = [('hloc', k) for k in hl2]
+    pe = [('extract', pre + [('all',)]), ('extract', [('all',)] * (depth - 1) + [('one', r[-1])])]
+    pd = [('derive', k) for k in DERIVE_KINDS]
+    pm = [('hloc', k) for k in masks]
+    if order == 0:
+        return ph + pe + pd[:-1] + pm + pd[-1:]
+    if order == 1:
+        return pd[:-1] + ph + pe + pm + pd[-1:]
+    return pe + pd[:-1] + ph + pm + pd[-1:]
+
+
+def run_probes(ctx, g, probes, want):
+    '''Execute the probes now (no other access to `g` in between); returns raw observations.'''
+    n = len(want)
+    raw = []
+    for i, p in enumerate(probes):
+        if p[0] == 'hloc':
+            raw.append(('hloc', i, p[1], hloc_observe(g, p[1], n)))
+        elif p[0] == 'derive':
+            try:
+                obj = derive(g, p[1], n)
+            except Exception as e:  # noqa
+                obj = e
+            raw.append(('derive', i, p[1], obj))
+        elif p[0] == 'extract':
+            try:
+                cs = list(extract_cases(ctx, g, want, p[1], 'go-grown', only=('series.loc', 'frame.loc'), extra={'probe': i}))
+            except Exception as e:  # noqa
+                cs = e
+            raw.append(('extract', i, p[1], cs))
+    return raw
+
+
+def derived_case(ctx, kind, obj, want, stratum, extra):
+    '''All views of an index derived from a grown IndexHierarchyGO against the tuples the grown object denotes.'''
+    depth = len(want[0])
+    n = len(want)
+    rl = rows_lit(want)
+    desc = dict(extra, derive=kind, rows=[[jl(x) for x in r] for r in want],
+                observe='list, len, shape, values, values_at_depth, iter_label, iloc[-1], in, loc_to_iloc of the derived index')
+    tags = {'op': 'derive', 'derive': kind}
+    ctx.count(f'go:derive:{kind}')
+    key = f'derive|{kind}|{rl}|{json_key(extra)}'
+    if isinstance(obj, Exception):
+        return Case(stratum + ':derive', desc, py_fail=f'deriving {kind} from the grown index raised {type(obj).__name__}: {obj}'[:300], tags=tags, key=key)
+    try:
+        import static_frame as sf
+        problems = []
+        obs_rows = [tuple(canon(x) for x in r) for r in obj]
+        if len(obj) != n:
+            problems.append(f'len {len(obj)} != {n}')
+        if tuple(obj.shape) != (n, depth):
+            problems.append(f'shape {tuple(obj.shape)} != {(n, depth)}')
+        vals = [tuple(canon(x) for x in r) for r in obj.values.tolist()]
+        if [row_lit(r) for r in vals] != [row_lit(r) for r in want]:
+            problems.append(f'values has {len(vals)} rows, differs from the {n} tuples')
+        cols = []
+        for d in range(depth):
+            col = [canon(x) for x in lit.array_vals(obj.values_at_depth(d))]
+            cols.append(col)
+            it = [canon(x) for x in obj.iter_label(d)]
+            if [lab(x) for x in it] != [lab(r[d]) for r in want]:
+                problems.append(f'iter_label({d}) has {len(it)} labels, differs from the tuples')
+        last = tuple(canon(x) for x in obj.iloc[n - 1]) if len(obj) >= n else None
+        if last is None or row_lit(last) != row_lit(want[-1]):
+            problems.append(f'iloc[{n - 1}] = {last}')
+        if want[-1] not in obj:
+            problems.append('the last tuple is not a member')
+        pos = obj.loc_to_iloc(tuple(want[-1]))
+        if int(pos) != n - 1:
+            problems.append(f'loc_to_iloc(last tuple) = {pos}')
+        sel = canon_iloc(obj.loc_to_iloc(sf.HLoc[slice(None)]), n)[1]
+        if sel != list(range(n)):
+            problems.append(f'HLoc[:] selects {len(sel)} positions')
+        tl = tree_lit(tree_of(obj._levels))
+        cl = [lit.lst([lab(x) for x in c]) for c in cols]
+        m = ' && '.join([f'check_iter_M {tl} {rows_lit(obs_rows)}'] + [f'check_col_M {tl} {d} {cl[d]}' for d in range(depth)])
+        s_ = ' && '.join([f'rows_eqb {rows_lit(obs_rows)} {rl}'] + [f'check_col_S {rl} {d} {cl[d]}' for d in range(depth)])
+        return Case(stratum + ':derive', dict(desc, observed_len=len(obj), observed_rows=len(vals)), m=m, s=s_,
+                    py_fail='; '.join(problems) or None, tags=tags, key=key)
+    except Exception as e:  # noqa
+        return Case(stratum + ':derive', desc, py_fail=f'a view of {kind} derived from the grown index raised {type(e).__name__}: {e}'[:300], tags=tags, key=key)
+
+
+def probe_cases(ctx, g, raw, tree_after, want, stratum, steps_json):
+    for kind, i, arg, res in raw:
+        extra = {'history': steps_json, 'probe': i, 'probed': 'immediately after the last step'}
+        if kind == 'hloc':
+            ctx.count('go:probe:hloc')
+            yield hloc_case(ctx, g, tree_after, want, arg, 'go-grown', stratum=stratum + ':hloc_after_growth', obs=res, extra=extra)
+        elif kind == 'derive':
+            yield derived_case(ctx, arg, res, want, stratum, extra)
+        elif kind == 'extract':
+            ctx.count('go:probe:extract')
+            if isinstance(res, Exception):
+                yield Case(stratum + ':extract_after_growth', dict(extra, key=[sel_json(s) for s in arg]),
+                           py_fail=f'Series/Frame selection on a container indexed by the grown index raised {type(res).__name__}: {res}'[:300],
+                           tags={'op': 'extract'}, key=f'extract-raise|{json_key(extra)}|{key_lit(arg)}')
+            else:
+                for c in res:
+                    c.desc['history'] = steps_json
+                    c.key = c.key + '|' + json_key(steps_json)
+                    yield c
+
+
 def go_history(ctx, rng, rows0, kinds, script, stratum='api:go'):
     '''Run a history on an IndexHierarchyGO; one case per step (+ one for the whole history).'''
     import static_frame as sf
@@ -957,6 +1133,8 @@ def go_history(ctx, rng, rows0, kinds, script, stratum='api:go'):
                 err = None
             except Exception as e:  # noqa
                 err = e
+            want0 = ref + [tuple(key)] if err is None else ref
+            raw = run_probes(ctx, g, op[3] if len(op) > 3 else [], want0)      # before ANY other read of g
             after = tree_of(g._levels)
             obs = f'(Err {lit.s(lit.err_class(err))})' if err is not None else f'(Ok {tree_lit(after)})'
             unchanged_problem = None
@@ -986,6 +1164,7 @@ def go_history(ctx, rng, rows0, kinds, script, stratum='api:go'):
                        key=f'append|{tree_lit(before)}|{row_lit(key)}')
             steps_json.append(['append', [jl(x) for x in key]])
             ops_lit.append(f'OAppend {row_lit(key)}')
+            yield from probe_cases(ctx, g, raw, after, want0, stratum, list(steps_json))
             if problems:
                 ok_history = False
                 break
@@ -1000,6 +1179,8 @@ def go_history(ctx, rng, rows0, kinds, script, stratum='api:go'):
                 err = None
             except Exception as e:  # noqa
                 err = e
+            want0 = ref + [tuple(r) for r in other_rows] if err is None else ref
+            raw = run_probes(ctx, g, (op[3] if len(op) > 3 else []) if cls == 'valid' else [], want0)
             tags = {'op': 'extend', 'keyclass': cls}
             if cls == 'partial':
                 tags['finding'] = 'C05-extend-partial'
@@ -1022,6 +1203,8 @@ def go_history(ctx, rng, rows0, kinds, script, stratum='api:go'):
                        key=f'extend|{tree_lit(before)}|{tree_lit(ot)}')
             steps_json.append(['extend', [[jl(x) for x in r] for r in other_rows]])
             ops_lit.append(f'OExtend {tree_lit(ot)}')
+            if not problems and cls == 'valid':
+                yield from probe_cases(ctx, g, raw, tree_of(g._levels), want0, stratum, list(steps_json))
             if problems or cls == 'partial':
                 ok_history = False
                 break
@@ -1078,8 +1261,72 @@ def views_disagree(ih, rows):
     return out
 
 
+def random_probes(rng, want, kinds):
+    '''A few probes for a random history: always one innermost-`:`/open-slice HLoc, a random key, some derivations.'''
+    depth = len(kinds)
+    battery = probe_battery(want, depth, order=rng.randrange(3))
+    hl = [p for p in battery if p[0] == 'hloc']
+    dv = [p for p in battery if p[0] == 'derive' and p[1] != 'copy']
+    ex = [p for p in battery if p[0] == 'extract']
+    chosen = [rng.choice(hl[:5]), ('hloc', random_key(rng, want, kinds))] + rng.sample(dv, 2)
+    if rng.random() < 0.4:
+        chosen.append(rng.choice(ex))
+    rng.shuffle(chosen)
+    if rng.random() < 0.3:
+        chosen.append(('derive', 'copy'))
+    return chosen
+
+
+def short_history_cases(ctx):
+    '''EXHAUSTIVE short histories over the alphabet {materialise, append a leaf label, append a new branch, extend}
+    from two fixed start indices; after every growth step the full probe battery is run before anything else reads
+    the grown object (derive-and-observe-all-views, HLoc of every selector kind, Series/Frame .loc[HLoc]).'''
+    import itertools as it
+    starts = [([('a', 1), ('a', 2), ('b', 1)], ['str', 'int']),
+              ([('a', 1, 'x'), ('a', 1, 'y'), ('b', 2, 'x')], ['str', 'int', 'str'])]
+    max_len = 2 if ctx.tier == 'quick' else 3
+    alphabet = ['M', 'Al', 'Ab', 'E']
+    hid = 0
+    for rows0, kinds in starts:
+        depth = len(kinds)
+        words = [w for L in range(1, max_len + 1) for w in it.product(alphabet, repeat=L) if any(x != 'M' for x in w)]
+        if ctx.tier == 'quick':      # + a sample of the length-3 words (all of them in the thorough tier)
+            w3 = [w for w in it.product(alphabet, repeat=3) if any(x != 'M' for x in w)]
+            words += ctx.rng.sample(w3, ctx.n(8, 8))
+        for w in words:
+            hid += 1
+            ref = list(rows0)
+            script = []
+            for j, a in enumerate(w):
+                if a == 'M':
+                    script.append(('read', 'values', 0))
+                    continue
+                last = ref[-1]
+                if a == 'Al':
+                    used = {jl(x[-1]) for x in ref if x[:-1] == last[:-1]}
+                    new = [l for l in POOLS[kinds[-1]] if jl(l) not in used][0]
+                    key = tuple(last[:-1]) + (new,)
+                    ref = ref + [key]
+                    script.append(('append', key, 'leaf', probe_battery(ref, depth, order=(hid + j) % 3)))
+                elif a == 'Ab':
+                    used = {jl(x[0]) for x in ref}
+                    new = [l for l in POOLS[kinds[0]] + ['f', 'g', 'h'] if jl(l) not in used][0]
+                    key = (new,) + tuple(last[1:])
+                    ref = ref + [key]
+                    script.append(('append', key, 'branch', probe_battery(ref, depth, order=(hid + j) % 3)))
+                else:
+                    used = {jl(x[0]) for x in ref}
+                    new = [l for l in ['p', 'q', 'r', 's'] if l not in used][0]
+                    orows = [(new,) + tuple(rows0[0][1:]), (new,) + tuple(rows0[1][1:])]
+                    ref = ref + orows
+                    script.append(('extend', orows, 'valid', probe_battery(ref, depth, order=(hid + j) % 3)))
+            ctx.count(f'go:short:{len(w)}')
+            yield from go_history(ctx, ctx.rng, rows0, kinds, script, stratum='api:go:short')
+
+
 def go_cases(ctx):
     rng = ctx.rng
+    yield from short_history_cases(ctx)
     for _ in range(ctx.n(30, 300)):
         depth = rng.choice([2, 3, 3, 4])
         kinds = gen_kinds(rng, depth)
@@ -1092,9 +1339,9 @@ def go_cases(ctx):
             r = rng.random()
             if r < 0.55:
                 key, cls = gen_append_key(rng, ref, kinds)
-                script.append(('append', key, cls))
                 if cls in ('leaf', 'branch'):
                     ref = ref + [key]
+                script.append(('append', key, cls, random_probes(rng, ref, kinds) if rng.random() < 0.6 else []))
             elif r < 0.7:
                 used = {jl(x[0]) for x in ref}
                 free = [l for l in POOLS[kinds[0]] if jl(l) not in used]
@@ -1107,8 +1354,8 @@ def go_cases(ctx):
                 if free and len(free) >= len(roots) and rng.random() < 0.8:
                     ren = dict(zip([jl(x) for x in roots], rng.sample(free, len(roots))))
                     orows = [(ren[jl(x[0])],) + tuple(x[1:]) for x in orows]
-                    script.append(('extend', orows, 'valid'))
                     ref = ref + orows
+                    script.append(('extend', orows, 'valid', random_probes(rng, ref, kinds) if rng.random() < 0.6 else []))
                 else:
                     clash = [jl(x) for x in roots if jl(x) in used]
                     if not clash:
